@@ -20,7 +20,54 @@ from common import canon_err, show_rat, close, dyadic
 
 PROP = "C14"
 LEAN_MODULE = "SkVerif.Props.C14"
-OBLIGATIONS = []          # filled in below (one list per transformer family)
+OBLIGATIONS = [
+    "SkVerif.C14.maxLength_is_longest",
+    "SkVerif.C14.pad_eq_spec_requested",
+    "SkVerif.C14.pad_eq_spec_longest",
+    "SkVerif.C14.pad_cell_is_series_then_fill",
+    "SkVerif.C14.pad_rejects_longer",
+    "SkVerif.C14.pad_array_cells_rejected_witness",
+    "SkVerif.C14.minLength_is_shortest",
+    "SkVerif.C14.truncate_eq_spec_shortest",
+    "SkVerif.C14.truncate_eq_spec_lower",
+    "SkVerif.C14.truncate_eq_spec_range",
+    "SkVerif.C14.truncate_rejects_shorter",
+    "SkVerif.C14.truncate_array_cells_rejected_witness",
+    "SkVerif.C14.pad_output_lengths_exact",
+    "SkVerif.C14.truncate_output_lengths_exact",
+    "SkVerif.C14.pad_rows_preserved_in_order",
+    "SkVerif.C14.truncate_rows_preserved_in_order",
+    "SkVerif.C14.tabularize_eq_spec",
+    "SkVerif.C14.tabularize_column_then_time",
+    "SkVerif.C14.tabularize_rejects_ragged",
+    "SkVerif.C14.columnConcat_eq_spec",
+    "SkVerif.C14.tabularize_rows_preserved_in_order",
+    "SkVerif.C14.paa_eq_frame_means_fractional",
+    "SkVerif.C14.paa_eq_spec",
+    "SkVerif.C14.paa_frame_mean_dividing",
+    "SkVerif.C14.paa_output_lengths_exact",
+    "SkVerif.C14.paa_rows_preserved_in_order",
+    "SkVerif.C14.paa_rejects_bad_num_intervals",
+    "SkVerif.C14.interval_segments_concat_eq_input",
+    "SkVerif.C14.iseg_count_eq_spec_partial",
+    "SkVerif.C14.iseg_count_drops_last_point_witness",
+    "SkVerif.C14.iseg_rows_eq_spec",
+    "SkVerif.C14.iseg_rows_tiling_concat_eq_input",
+    "SkVerif.C14.iseg_count_rejects_too_many",
+    "SkVerif.C14.slidingWindow_eq_spec",
+    "SkVerif.C14.slidingWindow_output_lengths_exact",
+    "SkVerif.C14.slidingWindow_interior",
+    "SkVerif.C14.slidingWindow_rejects_bad_window",
+    "SkVerif.C14.interp_is_polyline",
+    "SkVerif.C14.polyline_unique",
+    "SkVerif.C14.interpolate_eq_spec",
+    "SkVerif.C14.interpolate_output_lengths_exact",
+    "SkVerif.C14.interpolate_same_length_is_identity",
+    "SkVerif.C14.interpolate_keeps_endpoints",
+    "SkVerif.C14.interpolate_rows_preserved_in_order",
+    "SkVerif.C14.interpolate_rejects_bad_length",
+    "SkVerif.C14.interpolate_array_cells_rejected_witness",
+]
 TRUSTED = []
 ASSUMPTIONS = []
 OPS = {}
